@@ -114,6 +114,10 @@ func scenario(k int) {
 	sort.Strings(kinds)
 	run.Distinct(vx.Hash(spec.Layout.String(), spec.Sequential, spec.Magnet, spec.Enc, kinds, len(spec.Webs), strings.Join(fp, ",")))
 	run.Count("pieces_downloaded", int64(res.Final.Pieces.Have))
+	if res.LateRejects > 0 {
+		run.Count("rejects_after_unchoke", int64(res.LateRejects))
+		run.Count("scenarios_with_reject_after_unchoke", 1)
+	}
 	if spec.Magnet {
 		run.Count("magnet_scenarios", 1)
 	}
